@@ -204,7 +204,7 @@ def run(chk, b, tier):
     n = 120 if tier == "quick" else 3000
     sz = b.sizer()
     scratch = b.scratchdir()
-    res = R.pmap(one_case, [(R.SEED, i, sz, scratch) for i in range(n)], chunksize=2)
+    res = R.pmap(one_case, [(R.SEED, i, sz, scratch) for i in range(n)], chunksize=2, chk=chk)
     profs = {}
     for i, r in enumerate(res):
         chk.count(r["evals"])
